@@ -38,7 +38,11 @@ DEFAULT_MAX_ITER = 100_000
 
 def gen_case(rng, big: bool):
     mm = 10 if big else 6
-    fam, c, A, b = gen_lp(rng, mm, mm)
+    if rng.random() < 0.12:   # tiny LPs: the only ones on which solve_lp_interior reaches OPTIMAL
+        fam, c, A, b = gen_lp(rng, 2, 2)
+        fam = "tiny:" + fam
+    else:
+        fam, c, A, b = gen_lp(rng, mm, mm)
     opts = {}
     r = rng.random()
     if r < 0.08:
@@ -155,15 +159,13 @@ def judge(ctx, case, out, reply):
         elif st not in ("OPTIMAL", "INFEASIBLE", "UNBOUNDED"):
             ctx.fail(fn, "bad_status", f"unexpected status {st}", rep)
         elif st != verdict:
-            if small_iter and st == "INFEASIBLE" and m_status == "INFEASIBLE":
+            if st == "INFEASIBLE" and m_status == "MAX_ITER" and m_ph1:
+                # the mirror (of the repaired code) ran out of iterations inside phase 1
                 klass = "false_infeasible:max_iter_in_phase1"
-            elif small_iter:
-                klass = None  # cut-off run: phase 2 never started a verdict; nothing the property pins down
             else:
                 klass = f"false_{st.lower()}:{verdict.lower()}"
-            if klass:
-                ctx.fail(fn, klass, f"status {st} but the certified verdict is {verdict}"
-                         + (f" (optimum {core.unrat(opt)})" if opt else ""), rep)
+            ctx.fail(fn, klass, f"status {st} but the certified verdict is {verdict}"
+                     + (f" (optimum {core.unrat(opt)})" if opt else ""), rep)
         elif st == "OPTIMAL":
             ctx.cov["cert_checked_impl"] = ctx.cov.get("cert_checked_impl", 0) + 1
             if lpc is None:
@@ -179,7 +181,9 @@ def judge(ctx, case, out, reply):
                              f"{float(core.unrat(opt))}", rep)
         # R_trace: returned value equals the mirror's
         if st != m_status:
-            if m_near:
+            if st == "INFEASIBLE" and m_status == "MAX_ITER" and m_ph1:
+                ctx.count("phase1_limit_reported_infeasible")  # R_prop above decides (unrepaired tree)
+            elif m_near:
                 ctx.count("r_trace_excluded_near_threshold")
             else:
                 ctx.tdiv(fn, {"case": case, "impl": r, "mirror": {"status": m_status}})
